@@ -46,14 +46,14 @@ CHECKS = {
  "C10": dict(
    engine="E1-SimMPI",
    category="fault_enumeration",
-   text="For every sampled valid multi-rank program: the fault-free run, EVERY single communication fault (drop / duplicate / retag / redirect / self on the send and on the receive side, a matched self-loop, a dependency closing a cross-rank cycle) at EVERY live communication operation, and seeded fault pairs. All ranks run find_distributed_partition + verify_distributed_partition on SimMPI under a seeded schedule; per rank the outcome is returned / raised / blocked-forever. A share of the runs uses PROCESS ACTORS (every rank in its own child interpreter with its own hash seed and heap; about 2000 runs per quick run), because the ranks exchange pickles whose meaning must not depend on the interpreter that made them. The expectation comes from an independent communication model of the built graphs, so cancelling faults must succeed and a correct program must never be rejected. PARTITION-LEVEL faults in addition: the partition find_distributed_partition returned for a valid program is tampered with on one rank (a receive posted in another part, an extra ordering edge), then all ranks run verify -> number -> execute; a partition whose global part graph the reference model finds cyclic must not pass verify_distributed_partition on every rank and then fail to execute. Every third process-actor group runs python -O and is held to the safety half only (no partition for an ill-formed program, no valid program rejected, no hang).",
+   text="For every sampled valid multi-rank program: the fault-free run, EVERY single communication fault (drop / duplicate / retag / redirect / self on the send and on the receive side, a matched self-loop, a dependency closing a cross-rank cycle) at EVERY live communication operation, and seeded fault pairs. All ranks run find_distributed_partition + verify_distributed_partition on SimMPI under a seeded schedule; per rank the outcome is returned / raised / blocked-forever. A share of the runs uses PROCESS ACTORS (every rank in its own child interpreter with its own hash seed and heap; about 2000 runs per quick run), because the ranks exchange pickles whose meaning must not depend on the interpreter that made them. The expectation comes from an independent communication model of the built graphs, so cancelling faults must succeed and a correct program must never be rejected. PARTITION-LEVEL faults in addition: the partition find_distributed_partition returned for a valid program is tampered with on one rank (a receive posted in another part, an extra ordering edge), then all ranks run verify -> number -> execute; a partition whose global part graph the reference model finds cyclic must not pass verify_distributed_partition on every rank and then fail to execute, and a partition with a duplicated send must not pass on every rank. Every third process-actor group runs python -O and is held to the safety half only (no partition for an ill-formed program, no valid program rejected, no hang).",
    design_ref="DESIGN.md sections 4.2, 4.3, 5 (C10)",
    note="Trusted: the communication model as definition of well-formed; the diagnostic family; the rule 'at least one affected rank raises a diagnostic, nobody raises anything else, not everybody returns; a cycle is raised on every rank'. Programs are sampled; faults per program are enumerated.",
    technique="deterministic simulation with fault injection: enumerated program-level communication faults executed on a simulated MPI, per-rank protocol outcome vs an independent model"),
  "C17": dict(
    engine="E2-fleet",
    category="exploration",
-   text="The 'system' is the interpreter population: sessions of 3-4 real child interpreters (ASLR off, distinct PYTHONHASHSEED - half edge values (0, 1, 2**31-1, 2**32-1), half drawn afresh per session -, every third session under python -O, seeded heap prelude before imports, seeded junk-graph allocation history, per-interpreter batch order) each produce, twice at different points of their life, text records for a batch of single-rank programs (loopy kernel key + canonical dump, OpenCL and C source, bound-argument order, generated Python source) and multi-rank programs (per simulated rank: part structure, names, receive/send order, canonical forms of part expressions, overall output order, integers from number_distributed_tags, keys of the part kernels; SimMPI seed equal across interpreters), plus a 'world' comparison in which every rank of a program lives in its own interpreter. Oracle: byte equality across all interpreters and both productions.",
+   text="The 'system' is the interpreter population: sessions of 3-4 real child interpreters (ASLR off, distinct PYTHONHASHSEED - half edge values (0, 1, 2**31-1, 2**32-1), half drawn afresh per session -, every third session under python -O, seeded heap prelude before imports, seeded junk-graph allocation history, per-interpreter batch order) each produce, twice at different points of their life, text records for a batch of single-rank programs (loopy kernel key + canonical dump, OpenCL and C source, bound-argument order, generated Python source) and multi-rank programs (per simulated rank: part structure, names, receive/send order, canonical forms of part expressions, overall output order, integers from number_distributed_tags, keys of the part kernels; SimMPI seed equal across interpreters), plus a 'world' comparison in which every rank of a program lives in its own interpreter, plus alternation records (the text of a fixed symbolic-shape program regenerated 250 times while same-shaped rival graphs are built and discarded, so that addresses are recycled; every text must be the first). Oracle: byte equality across all interpreters and both productions.",
    design_ref="DESIGN.md sections 3, 5 (C17)",
    note="Trusted: the canonical printer (sets sorted, ordered results in order); loopy's code generation is inside the compared pipeline; distinct fingerprints and differing plain-set iteration orders are measured to show that the fleet members do differ.",
    technique="deterministic simulation of an interpreter population: seeded hash seeds / heaps / allocation histories, byte-for-byte comparison of emitted records, replay by re-launching the two interpreters"),
